@@ -44,7 +44,7 @@ CHECKS = {
  "C03": dict(cat="model_checking", ref="DESIGN.md §4 C03, §3",
    text="Poller.tla models Trigger / Polling at the granularity of the code segments between verif gates (threshold test, link, counter increment, CAS, eventfd write; epoll_wait, dequeue, counter decrement, run, store 0, re-check, self wake-up); TLC checks exec-at-most-once, no-lost-wake-up, high-priority FIFO and that every accepted task eventually runs, over all interleavings. Every labelled edge of the graph is executed as a schedule of the real Poller (both epoll variants) under a gate scheduler, with flag, queues, counters, executed tasks and the kernel's readiness of the epoll descriptor compared after every step; each schedule is then run to quiescence and judged by a state witness (loop parked before epoll_wait(-1), descriptor not ready, accepted task not run).",
    note="Trusted: TLC, sequentially consistent atomics, ET eventfd semantics (cross-checked with poll(2) at every step). kqueue pollers cannot be built here. System-level effects of AsyncWrite/Wake/Close/Execute are part of the connection traces.",
-   tech="TLA+ spec + TLC exhaustive with liveness; TLC state graph replayed as controlled schedules of the real code (gate scheduler); systematic bounded-preemption schedules; state-witness oracle; Apalache inductive invariant for the counter abstraction (Wakeup.tla)"),
+   tech="TLA+ spec + TLC exhaustive with liveness; TLC state graph replayed as controlled schedules of the real code (gate scheduler); systematic bounded-preemption schedules; state-witness oracle; Apalache inductive invariant and TLAPS proof for the counter abstraction (Wakeup.tla, WakeupProof.tla)"),
  "C13": dict(cat="model_checking", ref="DESIGN.md §4 C13, §3",
    text="MSQueue.tla models the Michael-Scott queue one action per atomic load / CAS / counter update with the abstract FIFO as ghost state and assertions at the linearisation points; TLC checks linearizability, no loss / duplication, per-producer FIFO, the length-lag lemma and termination under weak fairness over all interleavings. Every labelled edge of the graph is executed as a schedule of the real queue under the gate scheduler with head / tail / next pointers and the counter compared after every step; call/return histories of these schedules, of seeded PCT schedules and of ungated stress windows are validated by QueueLin.tla, where TLC searches for a linearisation.",
    note="Trusted: TLC, sequentially consistent atomics, no ABA (GC). Bounds: 2 enqueuers x 1 + 1 dequeuer x 2 replayed; 2x2 + 2x2 model-checked in the thorough tier.",
